@@ -19,7 +19,7 @@ from collections import deque
 import vlib
 
 
-def cover_paths(g, rng, max_paths=None, full=True, max_len=400, want_terminal=True, look_around=400):
+def cover_paths(g, rng, max_paths=None, full=True, max_len=400, want_terminal=True, look_around=30):
     out = {n: [(l, d) for (l, d) in es if d != n] for n, es in g.edges.items()}
     total = sum(len(v) for v in out.values())
     unc = {n: set(range(len(v))) for n, v in out.items()}
